@@ -540,6 +540,13 @@ var _ = ssa.NewProgram
 func excepted(spec *FuncSpec, o *Obligation) bool {
 	rest := strings.TrimPrefix(o.Name, o.Func+"/")
 	for _, ex := range spec.Except {
+		if strings.Contains(ex, "@") {
+			// stable form kind@<line hash>#k
+			if o.Stable != "" && ex == o.Stable {
+				return true
+			}
+			continue
+		}
 		if rest == ex || strings.HasPrefix(rest, ex+"[") {
 			return true
 		}
